@@ -1348,6 +1348,11 @@ class Node:
             f"{conn.acct_application_ids}")
 
     def receive_cer(self, conn: PeerConnection, message: CapabilitiesExchangeRequest):
+        if conn.state != PEER_CONNECTED:
+            self.logger.warning(
+                f"{conn} got a CER while not waiting for one, ignoring")
+            return
+
         answer: CapabilitiesExchangeAnswer = self._generate_answer(conn, message)
         answer.host_ip_address = self.ip_addresses
         answer.vendor_id = self.vendor_id
